@@ -59,12 +59,30 @@ def real_thread_runs(ctx):
         spec = plans.gen_spec(rng, nmax=7)
         calls = [nd["id"] for nd in spec["nodes"] if nd["kind"] == "call"]
         failing = {i: rng.choice(["Failure", "BaseFailure", "SystemExit"]) for i in rng.sample(calls, min(len(calls), rng.choice([0, 0, 1, 2])))}
+        special = ri % 12
+        if special in (2, 5, 8, 11) and calls:
+            # a failure that is awkward to DISPLAY (it cannot be printed / its cause chain is a cycle), with a display that shows
+            # exceptions
+            failing = {calls[0]: "Unprintable" if special in (2, 8) else "CyclicCause"}
         rec = plans.Rec()
         plan, N, _ = plans.build(spec, rec, failing)
         base = set(threading.enumerate())
         with tempfile.TemporaryDirectory() as d:
             prog = rng.choice([console_progress, html_progress(d + "/p.html"), null_progress, (console_progress, html_progress(d + "/q.html"))])
-            if ri % 4 == 1:
+            if special in (2, 5, 8, 11) and calls:
+                prog = {2: console_progress, 5: console_progress, 8: html_progress(d + "/e.html"),
+                        11: (console_progress, html_progress(d + "/f.html"))}[special]
+            if special == 3:
+                # a display whose output is SLOW (a page on a network mount) and still being written when the run ends: run returns
+                # only when the display's thread is gone
+                import time as _t
+                from uberjob.progress import Progress
+                from uberjob.progress._html_progress_observer import HtmlProgressObserver
+
+                def slow_output(_bytes):
+                    _t.sleep(0.6)
+                prog = Progress(lambda: HtmlProgressObserver(slow_output, initial_update_delay=0.01, min_update_interval=0.01, max_update_interval=0.2))
+            if special in (1, 9):
                 # a composite in which a thread-owning observer sits next to one that raises while being entered / left
                 # (whichever comes first in the list): the update thread must be gone when run has raised
                 from uberjob.progress import Progress
